@@ -127,6 +127,7 @@ def indices(rng, n):
         base = [9, 10, 11, 100]
         rng.shuffle(pool)
         idx = (base + [p for p in pool if p not in base])[:n] if n >= 2 else [rng.choice(base)]
+        idx += rng.sample(range(102, 999), n - len(idx))
     elif rng.random() < 0.75:
         idx = rng.sample(range(0, 1200), n)
     else:  # five and more digits (beyond \d{1,4}, int32, the exact range of float64), large gaps
@@ -516,7 +517,11 @@ HISTORY_RATE = 0.4  # of the cases with an explicit option object
 def generate(rng, tier):
     vendor = rng.choice(VENDORS + ["tofwerk"])
     n = rng.choice([1, 2, 2, 3, 4, 4, 5, 6, 8])
+    if rng.random() < 0.03:
+        n = rng.choice([12, 16])
     tz = rng.choice(ZONES + (["Europe/Berlin", "America/New_York", "Australia/Lord_Howe"] if vendor == "tofwerk" else []))
+    if rng.random() < 0.25:
+        tz = rng.choice(MORE_ZONES)
     auto = rng.random() < 0.4
     names, _, f1 = line_names(rng, vendor, n, tz)
     tables, f2 = make_tables(rng, vendor, n)
@@ -530,6 +535,14 @@ def generate(rng, tier):
     rng.shuffle(pi)
     case = {"kind": "load", "vendor": vendor, "auto": auto, "tz": tz, "pi": pi, "entries": entries,
             "gen_features": sorted(set(f1 + f2 + f3))}
+    if n >= 12:
+        case["gen_features"].append("n>=12")
+    k = rng.random()
+    if k < 0.12:
+        case["path_as"] = rng.choice(["str", "str/"])
+    if rng.random() < 0.12:
+        case["dirname"] = rng.choice(["run 1", "scan.csv", ".hidden", "line_5.csv", "s_ldr_7.csv", "IMG_2021.01.01-10h10m10s.csv",
+                                      "2021.03.28", "a.b", "UPPER", "x" * 40])
     # drawn after everything else: the single-call case is the one the generator gave before histories existed
     if not auto and rng.random() < HISTORY_RATE:
         add_history(rng, case)
